@@ -265,7 +265,12 @@ def handle (args impl : List String) : String :=
   | ["sf", kind, outcome, hold, hf, b, d, a] =>
     match hf.toInt?, b.toNat?, d.toNat?, a.toNat? with
     | some hf, some b, some d, some a =>
-      let m := simulate kind outcome hold hf b d a
+      -- `loadStatic`: on-demand TLS off, the certificate is loaded from storage because the bounded
+      -- cache is almost full — the same single-flight around the load, but no decision function to
+      -- consult
+      let static := kind == "loadStatic"
+      let m := simulate (if static then "load" else kind) outcome hold hf b d a
+      let m := if static then { m with gates := 0 } else m
       let mapsEmpty := m.s.loadCh.isNone && m.s.obtCh.isNone
       let allDone := m.order.all (fun t => match m.s.pc t with | .done _ => true | _ => false)
       let out := toString m.issues ++ " " ++ toString m.loads ++ " " ++ toString m.gates ++ " " ++
